@@ -191,7 +191,7 @@ library:
           printf("%s\"", f2 ? "" : ","); f2 = 0; for (unsigned char *p = (unsigned char *)key; *p; p++) printf("%02x", *p); printf("\":"); printf("{"); jhex("v", buf); printf("}"); }
       printf("},"); }
     /* ---- (a3) the caller changes TZ after time conversions have already taken place: the zone in force NOW is what %{datetime} must use */
-    { const char *tz2 = kv(kvs, "tz2", ""); if (*tz2) { setenv("TZ", tz2, 1); buf[0] = 0; snoopy_datasourceregistry_callByName("datetime", buf, bufsz, "%z"); printf("\"datetime_z_after_tz_change\":"); printf("{"); jhex("v", buf); printf("},"); setenv("TZ", kv(kvs, "tz", "UTC"), 1); } }
+    { const char *tz2 = kv(kvs, "tz2", ""); if (*tz2) { setenv("TZ", tz2, 1); buf[0] = 0; snoopy_datasourceregistry_callByName("datetime", buf, bufsz, "%z|%s"); printf("\"datetime_z_after_tz_change\":"); printf("{"); jhex("v", buf); printf("},"); setenv("TZ", kv(kvs, "tz", "UTC"), 1); } }
     /* ---- (b) facts by another route */
     unsigned ru, eu, su, rgi, egi, sgi; syscall(SYS_getresuid, &ru, &eu, &su); syscall(SYS_getresgid, &rgi, &egi, &sgi);
     printf("\"f\":{\"ruid\":%u,\"euid\":%u,\"suid\":%u,\"rgid\":%u,\"egid\":%u,\"sgid\":%u,\"pid\":%ld,\"tid_kernel\":%ld,\"tid\":%lu,", ru, eu, su, rgi, egi, sgi, syscall(SYS_getpid), syscall(SYS_gettid), (unsigned long)pthread_self());
